@@ -17,14 +17,15 @@ def make_obs(ctx):
     ywins = core.year_windows(ctx.tier, ctx.seed, step=5, quick=[(1970, 1970), (2000, 2000)])
     if ctx.tier == 'quick':
         ywins = ywins[:2]
-    nb = {'s': 1024, 'm': 60, 'h': 30} if ctx.tier == 'quick' else {'s': 100000, 'm': 3000, 'h': 100}
+    # larger counts (100000 s, 3000 m) ran past the 400 s cap for the day-number calendar: 64-bit division by 86400
+    nb = {'s': 1024, 'm': 60, 'h': 30} if ctx.tier == 'quick' else {'s': 4096, 'm': 120, 'h': 48}
     for (lo, hi) in ywins:
         d = {'YLO': lo, 'YHI': hi}
         b = {'date-times': 'every second of %d..%d' % (lo, hi)}
         for u in ('s', 'm', 'h'):
             obs.append(Ob('dtadd:daisy:%s:%d-%d' % (u, lo, hi), H, 'h_dtadd',
                           dict(d, REP=REPS['daisy'], UNIT=DUR[u], NMAX=nb[u], STUB_TADD=1), units=UNITS, group='dtadd:daisy:' + u,
-                          bounds=dict(b, n='|n| <= %d %s' % (nb[u], u)), remove_bodies=P(['daisy']), timeout=400,
+                          bounds=dict(b, n='|n| <= %d %s' % (nb[u], u)), remove_bodies=P(['daisy']), timeout=400 if ctx.tier == 'quick' else 1200,
                           kf=['daisy_tail'] if hi >= 4094 else []))
         # wide hour counts with the REAL dt_tadd_s (the 4-bit day carry out of a time addition)
         obs.append(Ob('dtadd:daisy:h-wide:%d-%d' % (lo, hi), H, 'h_dtadd',
@@ -34,7 +35,7 @@ def make_obs(ctx):
         for rp, nmax, uw in (('ymd', 1024, 5), ('ywd', 1024, 4), ('yd', 1024, 4)):
             obs.append(Ob('dtadd:%s:s:%d-%d' % (rp, lo, hi), H, 'h_dtadd',
                           dict(d, REP=REPS[rp], UNIT='DT_DURS', NMAX=nmax, STUB_TADD=1), units=UNITS, unwind=uw,
-                          group='dtadd:%s:s' % rp, remove_bodies=P([rp]), timeout=400,
+                          group='dtadd:%s:s' % rp, remove_bodies=P([rp]), timeout=400 if ctx.tier == 'quick' else 1200,
                           bounds=dict(b, n='|n| <= %d s' % nmax)))
         for rp in ('ymd', 'daisy', 'ywd'):
             obs.append(Ob('milfup:%s:%d-%d' % (rp, lo, hi), H, 'h_milfup', dict(d, REP=REPS[rp]), units=UNITS,
